@@ -20,7 +20,7 @@ LEVEL = "fault_enumeration"
 RULE = (
     "per (model, history group): 3 seeded kernels of the model's ISA from the shipped corpus; one *case* = one report of one "
     "kernel produced by a driver process at one step of a cache history (cold / no-cache / warm companion / warm home cache / "
-    "second load in one process / stale internal_version / model edited, reverted, edited in-process / model changed in memory only by a cold-loading process / ISA description edited between runs and in-process / model given by path under user-chosen (dotted) file names through the library entry points: cold, warm, edited, reverted / same name other "
+    "second load in one process / stale internal_version / model edited, reverted, edited in-process / model changed in memory only by a cold-loading process / header-only (lazy) load as the first access of a cold home / ISA description edited between runs and in-process / model given by path under user-chosen (dotted) file names through the library entry points: cold, warm, edited, reverted / same name other "
     "content in a shared home cache / package-directory cache / cache file cut at 0, 10 bytes, seeded middle, last byte / "
     "writer killed after k bytes (k seeded, four offset classes) / 8 racing cold starts, released together or staggered with "
     "a pre-empted writer, then one more run / 8 racing cold starts on two different models of one directory held at a barrier in "
@@ -84,6 +84,7 @@ def floors(tier):
         "history:package": n,
         "history:lib-path": 3 * max(1, n - 3),
         "history:in-memory-change": 2 * max(1, n - 3),
+        "history:header-only-load-first": 2 * max(1, n - 3),
         "in_memory_change_applied": 2 * max(1, n - 3),
         "history:isa-edited": max(1, n - 2),
         "history:isa-inproc-edit": 2 * max(1, n - 2),
@@ -279,9 +280,10 @@ def cold_reference(cx):
         if e["ev"] == "report":
             break
         first.append(e)
-    # cold = both model files were looked up and nothing was served from a cache before the first report (when the cache is written is
-    # the implementation's business)
-    if sum(1 for e in first if e["ev"] == "get" and e["result"] == "miss") != 2 or any(e["ev"] == "get" and e["result"] == "hit" for e in first):
+    # cold = the first two look-ups (arch model, ISA description) miss; when the cache is written and what is looked up afterwards is
+    # the implementation's business
+    gets = [e for e in first if e["ev"] == "get"]
+    if len(gets) < 2 or any(e["result"] != "miss" for e in gets[:2]):
         raise RuntimeError("cold reference run was not cold: %s" % first)
     return h, res
 
@@ -690,6 +692,15 @@ def g_content(cx):
         judge(cx, res, cold, "in-memory-change", "analyses-then-change", variant=where, diff_key="cache/in-memory-change-persisted")
         res = cx.run(h, deny=deny)
         judge(cx, res, cold, "in-memory-change", "run-after", variant=where, diff_key="cache/in-memory-change-persisted")
+    # ---- the first thing that touches the model in a cold home is a header-only load (a library user creating the front end first)
+    for where in ("data", "cache"):
+        h = cx.new_home()
+        deny = [] if where == "data" else [cx.data_dir(h)]
+        res = cx.run(h, runs=[{"action": "frontend_first", "arch": cx.model}] + cx.argvs, deny=deny)
+        R.count("history:header-only-load-first")
+        judge(cx, res, cold, "header-only-load-first", "same-process", variant=where, diff_key="cache/poisoned-by-header-only-load")
+        res = cx.run(h, deny=deny)
+        judge(cx, res, cold, "header-only-load-first", "next-run", variant=where, diff_key="cache/poisoned-by-header-only-load")
     # ---- the ISA description edited
     isa_edit_histories(cx, cold)
     # ---- a model given by path (library entry points, as tools embedding OSACA use them), file names a user may choose
